@@ -562,8 +562,9 @@ class _Relatable(_LexiconElement):
         queue = self.get_related(*args)
         while queue:
             relatable = queue.pop(0)
-            if relatable.id not in visited:
-                visited.add(relatable.id)
+            # not by id: inferred synsets all have the same id
+            if relatable not in visited:
+                visited.add(relatable)
                 yield relatable
                 queue.extend(relatable.get_related(*args))
 
